@@ -631,6 +631,11 @@ func (r *runner) adhocSearch(ci int, s *Search) {
 		r.violate("hang", "search did not return\n%s", r.s.DumpTasks())
 		return
 	}
+	if err != nil && s.Fails {
+		r.s.Probe("failing_search_answered_error")
+		r.logf("c%d failing search -> %v", ci, err)
+		return
+	}
 	if err != nil {
 		if (r.c.Oracles.NoErrors || !r.errFiredNow()) && !r.readFaultWindow() {
 			r.violate("api_error", "search %q returned error: %v", s.Q.SeqQL(), err)
